@@ -78,14 +78,14 @@ class ParseAPI(object):
         pair = parse_colon_prefix(s)
         if pair is None or pair[0] not in "HP":
             return None
-        if pair[0] == "H":
-            try:
+        try:
+            if pair[0] == "H":
                 master_secret = h2b(pair[1])
-            except ValueError:
-                return None
-        else:
-            master_secret = pair[1].encode("utf8")  # type: ignore[assignment]
-        return self._network.keys.bip32_seed(master_secret)
+            else:
+                master_secret = pair[1].encode("utf8")  # type: ignore[assignment]
+            return self._network.keys.bip32_seed(master_secret)
+        except ValueError:
+            return None
 
     def hd_seed(self, s: str) -> Any:
         """
@@ -95,14 +95,14 @@ class ParseAPI(object):
         pair = parse_colon_prefix(s)
         if pair is None or pair[0] not in "HP":
             return None
-        if pair[0] == "H":
-            try:
+        try:
+            if pair[0] == "H":
                 master_secret = h2b(pair[1])
-            except ValueError:
-                return None
-        else:
-            master_secret = pair[1].encode("utf8")  # type: ignore[assignment]
-        return self._network.keys.hd_seed(master_secret)
+            else:
+                master_secret = pair[1].encode("utf8")  # type: ignore[assignment]
+            return self._network.keys.bip32_seed(master_secret)
+        except ValueError:
+            return None
 
     def bip32_prv(self, s: str) -> Any:
         """
@@ -188,7 +188,10 @@ class ParseAPI(object):
         blob = self._electrum_to_blob(s)
         if blob and len(blob) == 16:
             blob_hex = b2h(blob)
-            return self._network.keys.electrum_seed(seed=blob_hex)
+            try:
+                return self._network.keys.electrum_seed(seed=blob_hex)
+            except ValueError:
+                return None
         return None
 
     def electrum_prv(self, s: str) -> Any:
@@ -200,7 +203,10 @@ class ParseAPI(object):
         blob = self._electrum_to_blob(s)
         if blob and len(blob) == 32:
             mpk = from_bytes_32(blob)
-            return self._network.keys.electrum_private(master_private_key=mpk)
+            try:
+                return self._network.keys.electrum_private(master_private_key=mpk)
+            except ValueError:
+                return None
         return None
 
     def electrum_pub(self, s: str) -> Any:
@@ -211,7 +217,10 @@ class ParseAPI(object):
         """
         blob = self._electrum_to_blob(s)
         if blob and len(blob) == 64:
-            return self._network.keys.electrum_public(master_public_key=blob)
+            try:
+                return self._network.keys.electrum_public(master_public_key=blob)
+            except ValueError:
+                return None
         return None
 
     def p2pkh(self, s: str) -> Contract | None:
@@ -366,7 +375,10 @@ class ParseAPI(object):
                 if v0:
                     if s1 in ("even", "odd"):
                         is_y_odd = s1 == "odd"
-                        point = generator.points_for_x(v0)[is_y_odd]
+                        try:
+                            point = generator.points_for_x(v0)[is_y_odd]
+                        except ValueError:
+                            return None
                     v1 = self.as_number(s1)
                     if v1:
                         if generator.contains_point(v0, v1):
